@@ -482,6 +482,27 @@ func wrChurn(t *tr.W, rnd *rand.Rand, c wrCfg, secs float64, idx int) string {
 		d.W[0].Put2(d.Item(2*i, i))
 	}
 	s1, _ := d.NewSnapshot()
+	if c.Backup != "" && idx%2 == 1 {
+		// every other scenario runs on a RESTORED instance whose writers (and their collection / free workers) were
+		// created before LoadFromDisk replaced the store -- reclamation must wait for the accessors of the new store
+		os.RemoveAll(c.Backup)
+		s1.Open()
+		if err := d.StoreToDisk(c.Backup, s1, 2, nil); err != nil {
+			return "set-up backup failed: " + err.Error()
+		}
+		s1.Close()
+		d.Shutdown()
+		d = nh.Open(c.Cfg)
+		if d.G != nil {
+			fmt.Fprintln(os.Stderr, d.G.Describe())
+		}
+		rs, err := d.LoadFromDisk(c.Backup, 2, nil)
+		if err != nil {
+			return "set-up restore failed: " + err.Error()
+		}
+		d.RefreshStore()
+		s1 = rs
+	}
 	view, _ := d.Scan(s1, 0)
 	t.Emit(tr.Ev{"e": "View", "sn": 1, "items": view, "count": s1.Count()})
 	stop := int32(0)
